@@ -286,6 +286,21 @@ func runC10(c *Collector, r *Rng, thorough bool) {
 				c.Fail("C10/form-confusion", "abbreviated countersignature accepted as full", rep)
 			}
 			if s1, ok := pv.(*cose.Sign1Message); ok {
+				// a countersignature made over a COSE_Sign with the same protected bytes and payload does not bind
+				// the COSE_Sign1's signature and is not a countersignature of the COSE_Sign1
+				asSign := &cose.SignMessage{Headers: s1.Headers, Payload: s1.Payload, Signatures: []*cose.Signature{{Signature: []byte{1}}}}
+				cs3 := cose.NewCountersignature()
+				cs3.Headers.Protected.SetAlgorithm(k.alg)
+				if err := cs3.Sign(r, k.signer(), asSign, ext); err == nil {
+					if err := cs3.Verify(k.verifier(), par.val, ext); err == nil {
+						c.Fail("C10/parent-kind-confusion", "a countersignature made over a COSE_Sign verifies against a COSE_Sign1 with the same protected bytes and payload", rep)
+					}
+				}
+				if s0, err := cose.Countersign0(r, k.signer(), asSign, ext); err == nil {
+					if err := cose.VerifyCountersign0(k.verifier(), par.val, ext, s0); err == nil {
+						c.Fail("C10/parent-kind-confusion", "an abbreviated countersignature made over a COSE_Sign verifies against a COSE_Sign1", rep)
+					}
+				}
 				replay := &cose.Sign1Message{Headers: s1.Headers, Payload: s1.Payload, Signature: cs.Signature}
 				if err := replay.Verify(ext, k.verifier()); err == nil {
 					c.Fail("C10/replay-as-message-signature", "countersignature verified as the message signature", rep)
@@ -671,6 +686,100 @@ func runC11(c *Collector, r *Rng, thorough bool) {
 		op, obs, _, _ := execVerifyMsg(d.sm, []byte("x"), vfs)
 		addCase(c, "verify/decoded", op, obs, true)
 	}
+	// ---- several signers with the SAME algorithm but their own protected headers: each signature is over its own
+	// Sig_structure (recording keys), and with real keys every signature verifies independently with the standard
+	// library over the harness's RFC structure, at boundary payload / external lengths; tampering with any one
+	// signer's protected bytes fails the whole verification ----
+	for n := 2; n <= 4; n++ {
+		m := &cose.SignMessage{Headers: cose.Headers{Protected: cose.ProtectedHeader{int64(4): []byte("body")}}, Payload: []byte("payload")}
+		var sgs []*spySigner
+		var vfs []*spyVerifier
+		for j := 0; j < n; j++ {
+			m.Signatures = append(m.Signatures, &cose.Signature{Headers: cose.Headers{Protected: cose.ProtectedHeader{cose.HeaderLabelAlgorithm: cose.AlgorithmES256, int64(4): []byte(fmt.Sprintf("signer-%d", j))}}})
+			sgs = append(sgs, &spySigner{alg: -7, kind: SOk, sig: []byte{byte(j + 1), 0xab}})
+			vfs = append(vfs, &spyVerifier{alg: -7})
+		}
+		op, obs, err, p := execSignMsg(m, []byte("ext"), sgs)
+		if p {
+			c.Fail("C11/panic", "Sign panicked", map[string]any{"op": trunc(op, 400)})
+			continue
+		}
+		addCase(c, "same-alg/sign", op, obs, true)
+		if err == nil {
+			for j := range sgs {
+				want, _ := refSigN(&m.Headers, &m.Signatures[j].Headers, []byte("ext"), m.Payload)
+				if len(sgs[j].calls) != 1 || !bytes.Equal(sgs[j].calls[0], want) {
+					c.Fail("C11/own-structure", fmt.Sprintf("signer %d of %d (all ES256) was not handed its own Sig_structure", j, n), map[string]any{"op": trunc(op, 400)})
+				}
+			}
+			op, obs, _, _ = execVerifyMsg(m, []byte("ext"), vfs)
+			addCase(c, "same-alg/verify", op, obs, true)
+			for j := range vfs {
+				want, _ := refSigN(&m.Headers, &m.Signatures[j].Headers, []byte("ext"), m.Payload)
+				if len(vfs[j].calls) != 1 || !bytes.Equal(vfs[j].calls[0].content, want) {
+					c.Fail("C11/own-structure", fmt.Sprintf("verifier %d of %d (all ES256) was not handed its own signer's Sig_structure", j, n), map[string]any{"op": trunc(op, 400)})
+				}
+			}
+		}
+	}
+	rkeys := realKeySet(r)
+	for _, k := range []realKey{rkeys[0], rkeys[3], rkeys[4]} {
+		for _, ln := range []int{0, 23, 24, 255, 256, 65535, 65536} {
+			if !thorough && k.name != "P-256" && ln > 256 {
+				continue
+			}
+			payload, ext := bytes.Repeat([]byte{0x61}, ln), bytes.Repeat([]byte{0x62}, (ln+1)%65537)
+			m := &cose.SignMessage{Headers: cose.Headers{Protected: cose.ProtectedHeader{int64(4): []byte("body")}}, Payload: payload}
+			n := 3
+			var signers []cose.Signer
+			var verifiers []cose.Verifier
+			for j := 0; j < n; j++ {
+				m.Signatures = append(m.Signatures, &cose.Signature{Headers: cose.Headers{Protected: cose.ProtectedHeader{cose.HeaderLabelAlgorithm: k.alg, int64(4): []byte(fmt.Sprintf("signer-%d", j))}}})
+				signers = append(signers, k.signer())
+				verifiers = append(verifiers, k.verifier())
+			}
+			rep := map[string]any{"alg": k.alg.String(), "payload_len": ln, "external_len": len(ext)}
+			c.Eval("same-alg/real/"+k.name, fmt.Sprint(ln), true)
+			if err := m.Sign(r, ext, signers...); err != nil {
+				c.Fail("C11/sign-refused", "signing with three signers of one algorithm failed: "+err.Error(), rep)
+				continue
+			}
+			for j, sg := range m.Signatures {
+				tbs, _ := refSigN(&m.Headers, &sg.Headers, ext, payload)
+				if !refVerify(k.alg, k.pub, tbs, sg.Signature) {
+					c.Fail("C11/signature-not-over-own-structure", fmt.Sprintf("signature %d is not a valid signature over that signer's RFC 9052 Sig_structure", j), rep)
+				}
+			}
+			if err := m.Verify(ext, verifiers...); err != nil {
+				c.Fail("C11/valid-refused", "a correctly signed COSE_Sign does not verify: "+err.Error(), rep)
+			}
+			// signatures made by the standard library over the RFC structure are accepted
+			m2 := &cose.SignMessage{Headers: m.Headers, Payload: payload}
+			for j := 0; j < n; j++ {
+				h := cloneHeaders(m.Signatures[j].Headers)
+				tbs, _ := refSigN(&m.Headers, &h, ext, payload)
+				m2.Signatures = append(m2.Signatures, &cose.Signature{Headers: h, Signature: refSign(r, k, tbs)})
+			}
+			if err := m2.Verify(ext, verifiers...); err != nil {
+				c.Fail("C11/valid-refused", "a COSE_Sign signed by another implementation over the RFC structures does not verify: "+err.Error(), rep)
+			}
+			// one signer's protected header changed after signing: everything must fail, whichever position
+			for j := 0; j < n; j++ {
+				t := &cose.SignMessage{Headers: m.Headers, Payload: payload}
+				for q, sg := range m.Signatures {
+					cp := &cose.Signature{Headers: cloneHeaders(sg.Headers), Signature: sg.Signature}
+					if q == j {
+						cp.Headers.RawProtected = nil
+						cp.Headers.Protected[int64(4)] = []byte("someone-else")
+					}
+					t.Signatures = append(t.Signatures, cp)
+				}
+				if err := t.Verify(ext, verifiers...); err == nil {
+					c.Fail("C11/tampered-accepted", fmt.Sprintf("COSE_Sign verified although the protected header of signer %d was changed after signing", j), rep)
+				}
+			}
+		}
+	}
 }
 
 // ---------- C20 ----------
@@ -909,6 +1018,47 @@ func runC20(c *Collector, r *Rng, thorough bool) {
 			c.Fail("C20/verifier-error-not-propagated", "SignMessage.Verify lost the verifier error", map[string]any{"op": op})
 		}
 	}
+	// ---- the fault below the cose.Signer: a crypto.Signer (HSM / KMS adapter) that returns no bytes and no error,
+	// or an error, wrapped by the built-in RSA-PSS / ECDSA / Ed25519 signers ----
+	{
+		kr0 := NewRng(4242)
+		ek0, _ := ecdsa.GenerateKey(elliptic.P256(), kr0)
+		rk0 := realKeySet(r)[4].priv.(*rsa.PrivateKey)
+		edPub0, _, _ := ed25519.GenerateKey(kr0)
+		for _, kc := range []struct {
+			name string
+			alg  cose.Algorithm
+			pub  crypto.PublicKey
+		}{{"PS256", cose.AlgorithmPS256, &rk0.PublicKey}, {"PS512", cose.AlgorithmPS512, &rk0.PublicKey}, {"ES256", cose.AlgorithmES256, &ek0.PublicKey}, {"EdDSA", cose.AlgorithmEdDSA, edPub0}} {
+			for _, mode := range []string{"nil", "empty", "error", "bytes-and-error"} {
+				st := &faultyCryptoSigner{pub: kc.pub, mode: mode}
+				signer, err := cose.NewSigner(kc.alg, st)
+				if err != nil {
+					continue
+				}
+				rep := map[string]any{"alg": kc.name, "crypto_signer_returns": mode}
+				c.Eval("crypto-signer-fault/"+kc.name, mode, true)
+				m := &cose.Sign1Message{Headers: hdr(kc.alg), Payload: []byte("p")}
+				var serr error
+				if p, _ := protect(func() { serr = m.Sign(r, nil, signer) }); p {
+					c.Fail("C20/panic", "Sign panicked on a crypto.Signer fault", rep)
+					continue
+				}
+				enc, merr := m.MarshalCBOR()
+				if serr == nil && merr == nil {
+					c.Fail("C20/crypto-signer-fault-yields-message", fmt.Sprintf("the key returned %s but Sign returned nil and the message serialises: %x", mode, trimTo(enc, 60)), rep)
+				}
+				out, herr := cose.Sign1(r, signer, hdr(kc.alg), []byte("p"), nil)
+				if herr == nil || out != nil {
+					c.Fail("C20/crypto-signer-fault-yields-message", fmt.Sprintf("the key returned %s but Sign1 returned bytes=%x err=%v", mode, trimTo(out, 60), herr), rep)
+				}
+				s0, cerr := cose.Countersign0(r, signer, &cose.Sign1Message{Headers: hdr(kc.alg), Payload: []byte("p"), Signature: []byte{1}}, nil)
+				if cerr == nil && len(s0) > 0 {
+					c.Fail("C20/crypto-signer-fault-yields-message", fmt.Sprintf("the key returned %s but Countersign0 returned a signature %x", mode, trimTo(s0, 40)), rep)
+				}
+			}
+		}
+	}
 	// ---- entropy failures with real keys ----
 	kr := NewRng(99)
 	ek, _ := ecdsa.GenerateKey(elliptic.P256(), kr)
@@ -1023,4 +1173,23 @@ func (s *slowSigner) Sign(_ io.Reader, content []byte) ([]byte, error) {
 	}
 	s.seen = append([]byte{}, content...)
 	return []byte{1, 2, 3}, nil
+}
+
+// faultyCryptoSigner: a crypto.Signer whose Sign fails in the scripted way
+type faultyCryptoSigner struct {
+	pub  crypto.PublicKey
+	mode string
+}
+
+func (f *faultyCryptoSigner) Public() crypto.PublicKey { return f.pub }
+func (f *faultyCryptoSigner) Sign(io.Reader, []byte, crypto.SignerOpts) ([]byte, error) {
+	switch f.mode {
+	case "nil":
+		return nil, nil
+	case "empty":
+		return []byte{}, nil
+	case "error":
+		return nil, errScripted
+	}
+	return []byte{1, 2, 3}, errScripted
 }
